@@ -293,6 +293,10 @@ func (c *Client) BlockchainInfo(ctx context.Context, minHeight, maxHeight int64)
 			return nil, fmt.Errorf("block meta header %X does not match with trusted header %X",
 				bmH, tH)
 		}
+		if !meta.BlockID.Equals(h.Commit.BlockID) {
+			return nil, fmt.Errorf("block meta blockID %v does not match with trusted blockID %v",
+				meta.BlockID, h.Commit.BlockID)
+		}
 	}
 
 	return res, nil
@@ -332,9 +336,8 @@ func (c *Client) Block(ctx context.Context, height *int64) (*ctypes.ResultBlock,
 	}
 
 	// Verify block.
-	if bH, tH := res.Block.Hash(), l.Hash(); !bytes.Equal(bH, tH) {
-		return nil, fmt.Errorf("block header %X does not match with trusted header %X",
-			bH, tH)
+	if err := verifyBlock(res, l); err != nil {
+		return nil, err
 	}
 
 	return res, nil
@@ -366,12 +369,36 @@ func (c *Client) BlockByHash(ctx context.Context, hash []byte) (*ctypes.ResultBl
 	}
 
 	// Verify block.
-	if bH, tH := res.Block.Hash(), l.Hash(); !bytes.Equal(bH, tH) {
-		return nil, fmt.Errorf("block header %X does not match with trusted header %X",
-			bH, tH)
+	if err := verifyBlock(res, l); err != nil {
+		return nil, err
 	}
 
 	return res, nil
+}
+
+// verifyBlock checks the block and its ID against the trusted light block:
+// the header hash, the complete BlockID (including the PartSetHeader, which the
+// trusted commit signs) and that LastCommit is the commit for the block
+// Header.LastBlockID points to (LastCommitHash covers the signatures only).
+func verifyBlock(res *ctypes.ResultBlock, l *types.LightBlock) error {
+	if bH, tH := res.Block.Hash(), l.Hash(); !bytes.Equal(bH, tH) {
+		return fmt.Errorf("block header %X does not match with trusted header %X",
+			bH, tH)
+	}
+	if !res.BlockID.Equals(l.Commit.BlockID) {
+		return fmt.Errorf("blockID %v does not match with trusted blockID %v",
+			res.BlockID, l.Commit.BlockID)
+	}
+	lastCommit := res.Block.LastCommit
+	if !lastCommit.BlockID.Equals(res.Block.LastBlockID) {
+		return fmt.Errorf("last commit blockID %v does not match with header's last blockID %v",
+			lastCommit.BlockID, res.Block.LastBlockID)
+	}
+	if !res.Block.LastBlockID.IsZero() && lastCommit.Height != res.Block.Height-1 {
+		return fmt.Errorf("last commit height %d does not match with block height %d - 1",
+			lastCommit.Height, res.Block.Height)
+	}
+	return nil
 }
 
 // BlockResults returns the block results for the given height. If no height is
